@@ -47,6 +47,42 @@ RETS = {"NextRet", "RespRet", "ErrRet", "InitErrRet", "RegisterRet", "ExtInitErr
 VALID_ET = re.compile(r"^(Runtime|Function)\.[A-Z][a-zA-Z]+$")
 
 
+def suffix_after(raw_events, mark_name):
+    """Events recorded after the driver's mark `mark_name`, renumbered as if they came from a fresh
+    instance: process generations and invocation ordinals start again at 1 (property C08)."""
+    idx = None
+    for i, ev in enumerate(raw_events):
+        if ev.get("ev") == "Mark" and ev.get("name") == mark_name:
+            idx = i
+    if idx is None:
+        return None
+    pre, suf = raw_events[:idx], raw_events[idx + 1:]
+    # the first init of a fresh instance runs as generation 1
+    gens = [ev.get("gen", 0) for ev in suf if ev.get("ev") == "Exec"]
+    g0 = (min(gens) - 1) if gens else 0
+    k0 = max([ev.get("k", 0) for ev in pre if ev.get("ev") == "InvokeCall"] + [0])
+    out = []
+    import copy
+    for ev in suf:
+        e = copy.deepcopy(ev)
+        if "gen" in e and isinstance(e["gen"], int) and e["gen"] > 0:
+            e["gen"] = e["gen"] - g0
+        if e.get("ev") in ("InvokeCall", "InvokeRet"):
+            e["k"] = e["k"] - k0
+            if re.match(r"^p\d+$", e.get("payload", "") or ""):
+                e["payload"] = "p%d" % (int(e["payload"][1:]) - k0) if int(e["payload"][1:]) > k0 else e["payload"] + "x"
+        if e.get("ev") == "NextRet" and e.get("kind") == "INVOKE":
+            m = re.search(r":k(\d+)$", e.get("arn", "") or "")
+            if m:
+                e["arn"] = e["arn"][:m.start()] + ":k%d" % (int(m.group(1)) - k0)
+            if re.match(r"^p\d+$", e.get("payload", "") or "") and int(e["payload"][1:]) > k0:
+                e["payload"] = "p%d" % (int(e["payload"][1:]) - k0)
+        if e.get("ev") in ("NextCall", "ExtInitErrCall", "ExtExitErrCall") and "idgen" in e:
+            pass
+        out.append(e)
+    return out
+
+
 def project(raw_events, scenario, bound=None):
     """raw_events: list of dicts from the recorder; scenario: the scenario dict (for the header).
     Returns the list of projected events, starting with a Begin event."""
@@ -54,6 +90,7 @@ def project(raw_events, scenario, bound=None):
     files = sorted(e["name"] for e in opt.get("ext", []) if e.get("kind", "file") != "dir")
     lf = sorted(opt.get("launchFail", []))
     out = [dict(BLANK, e="Begin", files=files, lf=lf, sid=scenario.get("id", ""), timeoutMs=opt.get("timeoutMs", 2000),
+                kind=scenario.get("meta", {}).get("begin", ""),
                 strict=not scenario.get("meta", {}).get("race", False))]
 
     # request id -> invocation ordinal, from what was rendered (the ARN carries ":k<k>")
@@ -201,9 +238,10 @@ def project(raw_events, scenario, bound=None):
             if tk == "ExtensionInit":
                 line = {"name": ev["name"], "st": ev["state"], "subs": sorted(ev.get("subs") or []), "err": ev.get("errType", "")}
                 if pending_lines is None:
-                    pending_lines = dict(BLANK, e="Tel", tk="ExtensionInit", lines=[line], src=ev.get("seq", 0))
+                    pending_lines = dict(BLANK, e="Tel", tk="ExtensionInit", lines=[line], src=ev.get("seq", 0), t=ev.get("t", 0))
                 else:
                     pending_lines["lines"].append(line)
+                    pending_lines["t"] = ev.get("t", 0)
                 continue
             if tk in ("InitStart", "InitRuntimeDone", "InitReport", "InvokeStart", "RuntimeDone"):
                 o.update(e="Tel", tk=tk, phase=ev.get("phase", ""), status=ev.get("status", ""), et=ev.get("errType", ""),
